@@ -194,6 +194,8 @@ def finish(rep, level="other", explanation="", assumptions=None, trusted=None):
     os.makedirs(rdir, exist_ok=True)
     for v in listed:
         print("KNOWN-FINDING: property=%s %s -- %s" % (rep.pid, v["key"], kmap[v["key"]].get("what", v["msg"])))
+    for u in rep.extra.get("undecided", []):
+        print("NOT-DECIDED: property=%s [%s:%s] %s" % (rep.pid, u["rule"], u["key"], str(u["why"])[:200]))
     exit_code = 0
     for i, v in enumerate(new):
         safe = "".join(c if c.isalnum() or c in "._-" else "_" for c in v["key"])[:150]
@@ -299,6 +301,10 @@ def selftest(pid, mod, tier_seed=0):
             if hasattr(mod, "PYFILE"): saved["PYFILE"] = mod.PYFILE; mod.PYFILE = os.path.join(work, "python/zerv/__init__.py")
             try:
                 mod.check(F, sub, "quick")
+            except CheckBroken:
+                raise
+            except Exception:
+                finish(sub)          # a crash of the rule code on the variant: verdicts so far count, the rest is not decided
             finally:
                 REPO = old_repo
                 for k, v in saved.items(): setattr(mod, k, v)
